@@ -1036,7 +1036,8 @@ class LengthGuardFlow(PyFlow):
 
     def assume(self, test, truth, state):
         guarded, facts = state
-        return (guarded, facts | {("T" if truth else "F", norm(test))})
+        from ..pyfacts import atomic_facts
+        return (guarded, facts | atomic_facts(self.func, test, truth))
 
 
 @rule("C04.length-guard", ["C04"],
